@@ -1,6 +1,6 @@
 (* C14 -- addresses survive encoding exactly or are refused. *)
 From Coq Require Import NArith List Bool.
-From Octo Require Import Base.Bytes Model.Utf8 Model.Address Proofs.AddressFacts.
+From Octo Require Import Base.Bytes Model.Utf8 Model.Address Proofs.AddressFacts Proofs.AddressCorollaries.
 Import ListNotations.
 Open Scope N_scope.
 
@@ -41,6 +41,15 @@ Proof. exact vm_read_total. Qed.
 Theorem C14_vm_write_total : forall a, vm_write a <> Panic.
 Proof. exact vm_write_total. Qed.
 
+(* "never re-interpreted as a different address plus payload": both encodings are prefix-free on the representable addresses --
+   whatever payloads follow, equal wire bytes mean the same address and the same payload *)
+Theorem C14_s5_prefix_free : forall a b t1 t2, addr_wf a -> representable a -> addr_wf b -> representable b ->
+  s5_encode a ++ t1 = s5_encode b ++ t2 -> a = b /\ t1 = t2.
+Proof. exact s5_prefix_free. Qed.
+Theorem C14_vm_prefix_free : forall a b wa wb t1 t2, addr_wf a -> representable a -> addr_wf b -> representable b ->
+  vm_write a = Ok wa -> vm_write b = Ok wb -> wa ++ t1 = wb ++ t2 -> a = b /\ t1 = t2.
+Proof. exact vm_prefix_free. Qed.
+
 (* the guard is necessary: the SOCKS5-style encoder itself truncates the length of a 300-byte name *)
 Example C14_guard_is_needed :
   let h := repeat 97 300 in
@@ -55,9 +64,13 @@ Proof. vm_compute. reflexivity. Qed.
 Example C14_example_wf : addr_wf (AV4 [192; 168; 1; 1] 8080) /\ representable (ADom [97] 1).
 Proof. cbn. repeat split; try (repeat constructor; fail); try reflexivity. all: try (vm_compute; discriminate). Qed.
 
+Check C14_s5_prefix_free.
+Check C14_vm_prefix_free.
 Check (C14_s5_roundtrip : forall a tail, addr_wf a -> representable a -> s5_decode (s5_encode a ++ tail) = Ok (a, tail)).
 Print Assumptions C14_s5_roundtrip.
 Print Assumptions C14_s5_length.
+Print Assumptions C14_s5_prefix_free.
+Print Assumptions C14_vm_prefix_free.
 Print Assumptions C14_s5_try_decode_at.
 Print Assumptions C14_vmess_roundtrip.
 Print Assumptions C14_unrepresentable_refused.
